@@ -128,6 +128,14 @@ decreasing_by
   all_goals simp only [List.map_cons, List.sum_cons, List.length_cons, List.length_drop]
   all_goals omega
 
+/-- A permanent TCP face over successive connections (`UnicastTCPTransport.runReceive`): when a
+    connection fails the transport dials again and calls `readTlvStream` anew — with a fresh receive
+    buffer.  One chunk script per connection (a connection may end anywhere, also inside a block);
+    the frames handed to the link service are those of the connections, one after the other. -/
+def runConns : List (List Bytes) → List Bytes
+  | [] => []
+  | cs :: rest => (run init cs).1 ++ runConns rest
+
 /-- One `Read` result as the UDP transports may see it: the bytes, and whether an error that the
     `ignoreError` callback swallows came TOGETHER with them (`([], true)` = the error alone).
     `readTlvStream` processes the n > 0 bytes first and considers the error afterwards (io.Reader
